@@ -74,7 +74,7 @@ Record acct := mkA {
   a_ddirty : bool }.       (* so.dirtyDlgs *)
 
 Inductive ventry :=
-| VCreate (a : Z)
+| VCreate (a : Z) (prev : option val) (indexed : bool)   (* replaced live (deleted) object, address was indexed *)
 | VUpdate (a : Z) (nw old : val)
 | VDelete (a : Z) (old : val).
 
@@ -357,7 +357,7 @@ Definition create_validator (s : state) (a role status token stake : Z) : option
   | None =>
     let '(s2, aid) := alloc s1 [] in                 (* make(DelegationFroms, 0) *)
     let v := new_validator a role status token stake aid in
-    let s3 := set_validator (vj_push s2 (VCreate a)) v in
+    let s3 := set_validator (vj_push s2 (VCreate a (aget (vmap s2) a) (mem a (vindex s2)))) v in
     with_stat s3 (incr_stat (stat_ s3) v)
   end.
 
@@ -366,10 +366,12 @@ Definition remove_validator (s : state) (a : Z) : option state :=
   match aget (vmap s) a with
   | None => Some s
   | Some v =>
-    let v' := set_deleted v true in
-    let s1 := vj_push s (VDelete a v) in             (* a PartialCopy taken before the flag is set *)
-    let s2 := w_vmap s1 (aset (vmap s1) a v') in
-    with_stat s2 (decr_stat (stat_ s2) v')
+    if v_deleted v then Some s                       (* already removed *)
+    else
+      let v' := set_deleted v true in
+      let s1 := vj_push s (VDelete a v) in           (* a PartialCopy taken before the flag is set *)
+      let s2 := w_vindex (w_vmap s1 (aset (vmap s1) a v')) (srem a (vindex s1)) in
+      with_stat s2 (decr_stat (stat_ s2) v')
   end.
 
 (* ---- delegator accounts -------------------------------------------------- *)
@@ -448,13 +450,15 @@ Definition fund (s : state) (a : Z) : state :=
 
 Definition vundo1 (s : state) (e : ventry) : option state :=
   match e with
-  | VCreate a =>
+  | VCreate a prev indexed =>
     match aget (vmap s) a with
     | None => None                                       (* nil interface type assertion *)
     | Some v =>
       match decr_stat (stat_ s) v with
       | None => None
-      | Some st => Some (w_vindex (w_vmap (w_stat s st) (adel (vmap s) a)) (srem a (vindex s)))
+      | Some st =>
+        let m := match prev with Some p => aset (vmap s) a p | None => adel (vmap s) a end in
+        Some (w_vindex (w_vmap (w_stat s st) m) (if indexed then vindex s else srem a (vindex s)))
       end
     end
   | VDelete a old => let s1 := set_validator s old in with_stat s1 (incr_stat (stat_ s1) old)
@@ -533,7 +537,7 @@ Definition aentry_addr (e : aentry) : Z :=
   match e with JCreate a => a | JBal a => a | JDlgBal a _ => a | JDlgs a _ => a end.
 
 Definition ventry_addr (e : ventry) : Z :=
-  match e with VCreate a => a | VUpdate a _ _ => a | VDelete a _ => a end.
+  match e with VCreate a _ _ => a | VUpdate a _ _ => a | VDelete a _ => a end.
 
 Definition finalise_adirty (s : state) : list Z :=
   fold_left (fun acc e =>
@@ -550,8 +554,7 @@ Definition finalise (s : state) : state :=
   let adirt := finalise_adirty s in
   w_adirty (w_revs (w_ajournal (w_vjournal (w_vdirty s dirt) []) []) []) adirt.
 
-Definition is_invalid (v : val) : bool :=
-  Z.eqb (Z.abs (v_token v) mod two64) 0 && Z.eqb (Z.abs (v_stake v) mod two64) 0.
+Definition is_invalid (v : val) : bool := Z.leb (v_token v) 0 && Z.leb (v_stake v) 0.
 
 Definition dl_neg (l : list (option dfrom)) : bool :=
   existsb (fun x => match x with Some e => Z.ltb (d_stake e) 0 || Z.ltb (d_token e) 0 | None => false end) l.
@@ -578,10 +581,11 @@ Fixpoint root_vals (s : state) (dirty : list Z) : option state :=
         let v' := set_deleted v true in
         let s1 := w_vmap s (aset (vmap s) a v') in
         let s2 := w_vindex (w_t_vals s1 (adel (t_vals s1) a)) (srem a (vindex s1)) in
-        match decr_stat (stat_ s2) v' with
-        | None => None
-        | Some st => root_vals (w_stat s2 st) r
-        end
+        if v_deleted v then root_vals s2 r                (* RemoveValidator has already taken it out of the statistics *)
+        else match decr_stat (stat_ s2) v' with
+             | None => None
+             | Some st => root_vals (w_stat s2 st) r
+             end
       else
         (* updateValidator *)
         if val_neg v || dl_neg (view s v) then None      (* rlp cannot encode a negative big.Int: panic *)
@@ -680,8 +684,9 @@ Definition copy (s : state) : option state :=
     end
   end.
 
-(* GetValidatorsForUpdate: the inverted Empty() reloads the index from the trie
-   whenever the in-memory index is NOT empty; then every listed address that is
+(* GetValidatorsForUpdate: an empty in-memory index is reloaded from the trie
+   (also when it is empty because every validator was removed since the last
+   root: finding stale-index-reload); then every listed address that is
    not cached is fetched with getValidator (a failed fetch yields a typed nil
    inside a non-nil interface: no panic here) *)
 Fixpoint list_vals (s : state) (l : list Z) : state :=
@@ -695,8 +700,8 @@ Fixpoint list_vals (s : state) (l : list Z) : state :=
   end.
 Definition list_for_update (s : state) : option state :=
   let s1 := match vindex s with
-            | [] => s
-            | _ => match t_index s with Some l => w_vindex s l | None => s end
+            | [] => match t_index s with Some l => w_vindex s l | None => s end
+            | _ => s
             end in
   Some (list_vals s1 (vindex s1)).
 
